@@ -13,7 +13,7 @@ pub fn maker(cfg: &Cfg, prop: Prop) -> Maker<MeshSys> {
 /// (cfg, bfs depth, dfs-companion depth)
 pub fn plan(ctx: &Ctx) -> Vec<(Cfg, usize, usize)> {
     let mut v = Vec::new();
-    let c = |roles: u8, mesh: u8, start: u8, seed: u64| Cfg { roles, mesh, start, seed, other: ((roles + mesh + start) % 3 + (seed / 11) as u8 + 2) % 3 };
+    let c = |roles: u8, mesh: u8, start: u8, seed: u64| Cfg { roles, mesh, start, seed, other: ((roles + mesh + start) % 3 + (seed / 11) as u8 + 2) % 3, faults: seed == 11 && ((roles == 0 && mesh == 2 && start == 3) || (roles == 0 && mesh == 1 && start == 1) || (roles == 2 && mesh == 1 && start == 3)) };
     if ctx.quick() {
         for (roles, mesh) in [(0u8, 1u8), (0, 2), (1, 2), (2, 3)] {
             v.push((c(roles, mesh, 1, 11), 3, 2));
@@ -93,7 +93,7 @@ pub fn run(ctx: &Ctx, prop: Prop, guards: &[&str]) -> Outcome {
             out.machinery(format!("vacuity guard: counter '{g}' is zero — the situation the oracle judges never occurred"));
         }
     }
-    out.notes.push(format!("configurations (roles, mesh params, start, seed, third-topic name) x depth: {:?}", plan.iter().map(|(c, d, dd)| format!("r{}m{}s{}e{}o{}:d{}/{}", c.roles, c.mesh, c.start, c.seed, c.other, d, dd)).collect::<Vec<_>>()));
+    out.notes.push(format!("configurations (roles, mesh params, start, seed, third-topic name) x depth: {:?}", plan.iter().map(|(c, d, dd)| format!("r{}m{}s{}e{}o{}{}:d{}/{}", c.roles, c.mesh, c.start, c.seed, c.other, if c.faults { "F" } else { "" }, d, dd)).collect::<Vec<_>>()));
     out.notes.push("state counts are summed over 16 worker stripes (states first reached in two stripes are counted in both); distinct_nontrivial is a set union".into());
     out
 }
